@@ -42,8 +42,11 @@ func (it *Interp) toA(s *StrV) *Term {
 		if !it.flatten(s.Boxed, &leaves) {
 			it.fail("cannot lift boxed %s value to an opaque string", s.BoxT)
 		}
-		t := App("enc!"+s.BoxK+typeKey(s.BoxT), SStr, leaves...)
-		it.p.noteInjective("enc!"+s.BoxK+typeKey(s.BoxT), t)
+		fam := "enc!" + s.BoxK + typeKey(s.BoxT)
+		name := fmt.Sprintf("%s!%d", fam, len(leaves))
+		t := App(name, SStr, leaves...)
+		it.p.noteInjective(name, t)
+		it.p.noteGroup(fam, name, t)
 		it.strLenTerm(t)
 		return t
 	}
